@@ -1,6 +1,9 @@
 import H2T.Spec.Greedy
+import H2T.Spec.Parts
 import H2T.Props.C13
 import H2T.Lemmas.WrapInv
+import H2T.Lemmas.GreedyMain
+import H2T.Lemmas.GreedySpec
 
 /-! # C04 — paragraph wrapping is exactly greedy word filling with whitespace collapsed
 
@@ -8,33 +11,135 @@ import H2T.Lemmas.WrapInv
 when they fit, otherwise on a new line; a word wider than a line is cut into maximal pieces that never split a
 character; `TooNarrow` exactly when a character is wider than a whole line.
 
-Status: **partial** (being extended).  The full refinement statement is `wrap_eq_greedy_full`; its proof on the
-earlier per-character hard-wrap model exists (480 lines, design-phase calibration) and is being re-proved for the
-piece-based hard wrap of this model.  Proved here for the current model: every emitted line fits the width
-(all inputs, all tags); whitespace runs collapse and any whitespace character acts as a space; whitespace at the
-start of a line is dropped (no line begins with a space); a word that fits is placed whole behind exactly the
-pending space.  The `example`s at the end compare the machine with the reference on concrete inputs — those are
-tests, labelled as such.  Independently of the theorems, the check's search oracle compares the real library with
-an independent greedy wrapper written in Rust on exhaustive small and random large inputs. -/
+Status: **proved in full** for the wrap machine in normal white-space mode with the default options (no width
+overflow, no block padding): `wrap_eq_greedy_full`.  The paragraph may be fed to the machine in any number of
+`add_text` calls with arbitrary tags (inline elements starting and ending anywhere, also in the middle of a word)
+and with fragment markers anywhere between them; the lines are those of the reference applied to the words of the
+concatenated text, and the error is the reference's error.  The proof is a refinement in three layers
+(H2T/Lemmas/Greedy.lean: the piece loop of `flush_word_hard_wrap` against character-by-character filling;
+GreedyWord.lean: pieces, fragment markers and word placement; GreedyMain.lean: characters, parts, paragraph).
+The hypothesis that every word has positive display width is the property's own domain and is necessary: the
+machine does not flush a word of width 0 at the following space (`zero_width_word_differs`).
+Width 0 is covered by `wrap_zero_width`.
+
+Also proved: every emitted line fits the width (all inputs, all tags, all modes); whitespace runs collapse and any
+whitespace character acts as a space; whitespace at the start of a line is dropped; a word that fits is placed
+whole behind exactly the pending space; and sanity theorems about the reference itself (`spec_*`).
+Independently of the theorems, the check's search oracle compares the real library with an independent greedy
+wrapper written in Rust on exhaustive small and random large inputs, and the correspondence run ties the machine
+of this model to the library. -/
 
 namespace H2T.C04
 open H2T.Spec
 
-/-- the text of the lines a block returns -/
+/-- the text of the lines a block returns (tags and fragment markers forgotten) -/
 def linesText (ls : List TLine) : List (List Ch) :=
   ls.map fun l => l.filterMap fun e => match e with | .cell c => some c.ch | .frag _ => none
 
-/-- running the wrap machine on text parts with arbitrary tags, then finishing -/
-def wrapParts (w : Nat) (parts : List (Tag × List Ch)) : Except Err (List (List Ch)) :=
-  andThen (parts.foldlM (fun (b : WB) (p : Tag × List Ch) => b.addText .normal p.1 p.1 p.2) ({ width := w } : WB))
-    fun b => andThen b.finish fun ls => .ok (linesText ls)
+/-- running the wrap machine on a paragraph given as parts, then finishing -/
+def wrapParts (w : Nat) (parts : List Part) : Except Err (List (List Ch)) :=
+  andThen (({ width := w } : WB).runParts parts) fun b => andThen b.finish fun ls => .ok (linesText ls)
 
-/-- **Full statement**: for every split of a text over `add_text` calls with arbitrary tags, every width ≥ 1, and
-    words of positive display width (the property's own domain), the machine's lines are the reference's. -/
-def wrap_eq_greedy_full : Prop :=
-  ∀ (w : Nat) (parts : List (Tag × List Ch)), 1 ≤ w →
-    (∀ wd ∈ words (parts.flatMap (·.2)), 0 < lwc wd) →
-    wrapParts w parts = greedy w (words (parts.flatMap (·.2)))
+/-- **C04, full statement**: for every split of a text over `add_text` calls with arbitrary tags and fragment
+    markers, every width ≥ 1, and words of positive display width, the machine's result (lines or error) is the
+    reference's. -/
+theorem wrap_eq_greedy_full (w : Nat) (parts : List Part) (hw : 1 ≤ w)
+    (hpos : ∀ wd ∈ words (partsText parts), 0 < lwc wd) :
+    wrapParts w parts = greedy w (words (partsText parts)) := by
+  have hrel : Rel ({ width := w } : WB) ⟨[], []⟩ [] :=
+    ⟨⟨rfl, rfl, rfl, rfl, rfl, by simp⟩, rfl, rfl, by simp, by simp, by simp⟩
+  have h := runParts_refines w hw parts _ _ [] hrel rfl hpos
+  have he := ExRel_SameLines_eq h
+  unfold wrapParts
+  rw [andThen_assoc]
+  have hg : greedy w (words (partsText parts)) = andThen ((⟨[], []⟩ : G).places w (words (partsText parts))) specEnd := by
+    unfold greedy specEnd
+    cases (⟨[], []⟩ : G).places w (words (partsText parts)) <;> rfl
+  rw [hg]
+  exact he
+
+/-- the hypotheses of `wrap_eq_greedy_full` are satisfiable on a non-trivial paragraph: three parts with
+    different tags, an element boundary inside a word, a fragment marker, an over-long word -/
+example : (1 ≤ 3) ∧ (∀ wd ∈ words (partsText [.text [] [] (strCh "aaa b"), .frag (strCh "id"),
+    .text [Ann.em] [Ann.em] (strCh "b  ccc"), .text [] [] (strCh "ccc d")]), 0 < lwc wd) := by decide +kernel
+
+/-- the positive-width hypothesis is necessary: a word consisting of a zero-width character is not flushed at the
+    space that follows it, so it runs into the next word (the reference keeps them apart) -/
+theorem zero_width_word_differs :
+    let zw : Ch := ⟨0x200b, 0, false, false⟩
+    let text := [mkCh 97, spaceCh, zw, spaceCh, mkCh 98]
+    (wrapParts 10 [.text [] [] text]).toOption = some [[mkCh 97, spaceCh, zw, mkCh 98]] ∧
+    (greedy 10 (words text)).toOption = some [[mkCh 97, spaceCh, zw, spaceCh, mkCh 98]] := by decide +kernel
+
+/-! ## width 0 -/
+
+theorem fill_zero (word : List Ch) : ∀ (g : G), lwc g.cur = 0 → 0 < lwc word → g.fill 0 word = .error .tooNarrow := by
+  induction word with
+  | nil => intro g _ h; simp at h
+  | cons c cs ih =>
+    intro g h0 hpos
+    simp only [G.fill, G.fillCh]
+    by_cases hc : c.w = 0
+    · have : lwc g.cur + c.w ≤ 0 := by omega
+      simp only [this, if_true]
+      exact ih _ (by simp; omega) (by simp at hpos; omega)
+    · have h2 : ¬ (0 + c.w ≤ 0) := by omega
+      simp only [h0, h2, if_false, if_true]
+
+theorem runParts_zero : ∀ (parts : List Part) (b : WB), b.width = 0 → b.overflow = false → partsText parts ≠ [] →
+    b.runParts parts = .error .tooNarrow
+  | [], b, _, _, h => by simp [partsText] at h
+  | .frag n :: ps, b, hw, ho, h => by
+    simp only [WB.runParts, WB.addPart, andThen_ok]
+    exact runParts_zero ps _ hw ho (by simpa [partsText, Part.chars] using h)
+  | .text mt wt cs :: ps, b, hw, ho, h => by
+    simp only [WB.runParts, WB.addPart, WB.addText, WB.zeroGuard, hw, ho, if_true, Bool.false_eq_true, if_false]
+    cases cs with
+    | nil =>
+      simp only [List.isEmpty_nil, Bool.not_true, Bool.false_eq_true, if_false, andThen_ok, WB.addTextGo]
+      exact runParts_zero ps b hw ho (by simpa [partsText, Part.chars] using h)
+    | cons c cs => simp
+
+/-- at width 0 a paragraph with at least one word is `TooNarrow`, in the machine and in the reference -/
+theorem wrap_zero_width (parts : List Part) (hne : words (partsText parts) ≠ [])
+    (hpos : ∀ wd ∈ words (partsText parts), 0 < lwc wd) :
+    wrapParts 0 parts = .error .tooNarrow ∧ greedy 0 (words (partsText parts)) = .error .tooNarrow := by
+  constructor
+  · have : partsText parts ≠ [] := by
+      intro h; apply hne; rw [h]; rfl
+    have hr := runParts_zero parts ({ width := 0 } : WB) rfl rfl this
+    simp only [wrapParts, hr, andThen_err]
+  · cases hws : words (partsText parts) with
+    | nil => exact absurd hws hne
+    | cons w ws =>
+      have hw := hpos w (by rw [hws]; simp)
+      simp [greedy, G.places, G.place, fill_zero w ⟨[], []⟩ rfl hw]
+
+/-! ## consequences of the refinement: what the reference guarantees, the machine guarantees -/
+
+/-- the reference's lines fit the width -/
+theorem spec_lines_fit (W : Nat) (ws : List (List Ch)) (ls : List (List Ch)) (h : greedy W ws = .ok ls) :
+    ∀ l ∈ ls, lwc l ≤ W := greedy_fits W ws ls h
+
+/-- the reference lays out exactly the characters of the words, in order; everything else it emits is a space -/
+theorem spec_conserves (W : Nat) (ws : List (List Ch)) (ls : List (List Ch)) (h : greedy W ws = .ok ls) :
+    nonWs ls.flatten = nonWs ws.flatten := greedy_conserves W ws ls h
+
+/-- **text conservation for a paragraph** (the wrap-layer core of C03): the non-whitespace characters of the
+    machine's lines are exactly the word characters of the text, in order — nothing lost, duplicated, reordered
+    or invented, for every split, tagging and width -/
+theorem wrap_conserves_text (w : Nat) (parts : List Part) (ls : List (List Ch)) (hw : 1 ≤ w)
+    (hpos : ∀ wd ∈ words (partsText parts), 0 < lwc wd) (h : wrapParts w parts = .ok ls) :
+    nonWs ls.flatten = wordChars (partsText parts) := by
+  rw [wrap_eq_greedy_full w parts hw hpos] at h
+  rw [greedy_conserves w _ ls h, words_flatten, wordChars_nonWs]
+
+/-- the machine's paragraph lines fit, as a corollary of the refinement (independent of the C02 invariant) -/
+theorem wrap_lines_fit (w : Nat) (parts : List Part) (ls : List (List Ch)) (hw : 1 ≤ w)
+    (hpos : ∀ wd ∈ words (partsText parts), 0 < lwc wd) (h : wrapParts w parts = .ok ls) :
+    ∀ l ∈ ls, lwc l ≤ w := by
+  rw [wrap_eq_greedy_full w parts hw hpos] at h
+  exact greedy_fits w _ ls h
 
 /-- every line fits (all tags, all splits): from the C02 wrap-layer invariant -/
 theorem lines_fit (b : WB) (ls : List TLine) (hi : b.Inv) (ho : b.overflow = false) (h : b.finish = .ok ls) :
@@ -78,13 +183,13 @@ theorem spec_place_fits (W : Nat) (g : G) (word : List Ch) (hne : g.cur ≠ [])
 
 /-- "aaa bb  cccccc d" split over three tagged parts, widths 1..8 -/
 example : ∀ w ∈ [1, 2, 3, 4, 5, 6, 7, 8],
-    (wrapParts w [([], strCh "aaa b"), ([Ann.em], strCh "b  ccc"), ([], strCh "ccc d")]).toOption
+    (wrapParts w [.text [] [] (strCh "aaa b"), .frag (strCh "id"), .text [Ann.em] [Ann.em] (strCh "b  ccc"), .text [] [] (strCh "ccc d")]).toOption
       = (greedy w (words (strCh "aaa bb  cccccc d"))).toOption := by decide +kernel
 
 /-- a width-2 character at width 1 is TooNarrow in both -/
 example :
     let wide : Ch := ⟨0x5b57, 2, false, false⟩
-    (match wrapParts 1 [([], [mkCh 97, spaceCh, wide])] with | .error .tooNarrow => true | _ => false) = true ∧
+    (match wrapParts 1 [.text [] [] [mkCh 97, spaceCh, wide]] with | .error .tooNarrow => true | _ => false) = true ∧
     (match greedy 1 (words [mkCh 97, spaceCh, wide]) with | .error .tooNarrow => true | _ => false) = true := by decide +kernel
 
 end H2T.C04
